@@ -160,6 +160,7 @@ func ruleNoPositiveAfterShortCopy(c *Ctx) {
 		}
 		// reply sites after the copy: in the handler itself, and in helpers of the handler called after the copy
 		var sites []ssa.Instruction
+		paramSites := map[ssa.Instruction]*ssa.Parameter{} // call in f -> the helper parameter that decides the reply
 		helperSet := map[*ssa.Function]bool{}
 		for _, h := range c.withHelpers(f) {
 			helperSet[h] = true
@@ -177,6 +178,17 @@ func ruleNoPositiveAfterShortCopy(c *Ctx) {
 					for _, g := range c.withHelpers(h) {
 						allInstrs(g, func(x ssa.Instruction) {
 							if labelHas(c.stdLabels(x), "reply") && isStaticCall(x, "(*Conn).writeResponse") {
+								// a reply computed from the helper's own parameter is judged at this call (the helper
+								// may be shared with a path that has no chunk copy)
+								if hx, ok := stripConv(callCommon(x).Args[1]).(*ssa.Extract); ok {
+									if hc, ok := hx.Tuple.(*ssa.Call); ok && len(hc.Call.Args) == 1 {
+										if _, isP := stripConv(hc.Call.Args[0]).(*ssa.Parameter); isP && g == h {
+											paramSites[in] = hc.Call.Args[0].(*ssa.Parameter)
+											sites = append(sites, in)
+											return
+										}
+									}
+								}
 								sites = append(sites, x)
 							}
 						})
@@ -187,7 +199,27 @@ func ruleNoPositiveAfterShortCopy(c *Ctx) {
 		for _, in := range sites {
 			ls := c.stdLabels(in)
 			positive, why := false, ""
+			if p, isHelperCall := paramSites[in]; isHelperCall {
+				// the operand is this call's argument for p
+				cc := callCommon(in)
+				var v ssa.Value
+				for i, q := range p.Parent().Params {
+					if q == p && i < len(cc.Args) {
+						v = cc.Args[i]
+					}
+				}
+				positive, why = true, "a status computed by "+funcName(p.Parent())+" from "+describe(v)+", which may be nil (nil maps to 250)"
+				if v != nil && valueKnownNonNil(v) {
+					positive = false
+				} else if v != nil {
+					if ok, _ := c.factMatch(in, "^"+regexp.QuoteMeta(describe(v))+" != nil$"); ok {
+						positive = false
+					}
+				}
+				ls = nil
+			}
 			switch {
+			case ls == nil:
 			case labelHas(ls, "reply:2xx"):
 				positive, why = true, "a 2xx constant"
 			case labelHas(ls, "reply:dyn"):
